@@ -22,13 +22,11 @@ where
 
         let len = match memchr(LINE_FEED, src) {
             Some(i) => {
-                let line = &src[..i];
+                buf.extend_from_slice(&src[..i]);
 
-                if line.ends_with(&[CARRIAGE_RETURN]) {
-                    let end = line.len() - 1;
-                    buf.extend_from_slice(&line[..end]);
-                } else {
-                    buf.extend_from_slice(line);
+                // The carriage return of a CRLF may have been read from a previous buffer.
+                if buf.ends_with(&[CARRIAGE_RETURN]) {
+                    buf.pop();
                 }
 
                 i + 1
